@@ -136,9 +136,10 @@ Definition dup_witness : list field :=
   [mk ":method" "GET"; mk ":path" ""; mk ":path" "/a"; mk ":authority" "x"; mk ":scheme" "https"].
 
 Lemma dup_witness_rejected :
-  parseHeaders true 65536 dup_witness false = inl (EMalformed DupPseudo) /\
-  parseHeaders false 65536 [mk ":status" ""; mk ":status" "200"] false = inl (EMalformed DupPseudo).
-Proof. split; vm_compute; reflexivity. Qed.
+  parseHeaders true 65536 dup_witness false = inl (EMalformed EmptyPseudo) /\
+  parseHeaders false 65536 [mk ":status" ""; mk ":status" "200"] false = inl (EMalformed EmptyPseudo) /\
+  parseHeaders true 65536 [mk ":method" "GET"; mk ":path" "/b"; mk ":path" "/a"] false = inl (EMalformed DupPseudo).
+Proof. split; [|split]; vm_compute; reflexivity. Qed.
 
 Definition cl_witness : list field :=
   [mk ":method" "POST"; mk ":scheme" "https"; mk ":authority" "x"; mk ":path" "/"; mk "content-length" ""].
@@ -313,9 +314,10 @@ Proof.
   destruct (beq vm (bs "CONNECT")) eqn:Ec; cbn [andb negb].
   - destruct (is_empty vpr) eqn:Epr; cbn [andb negb orb].
     + destruct (is_empty vp) eqn:Ep; cbn [negb orb]; [|discriminate].
-      destruct (is_empty va) eqn:Ea; [discriminate|]. cbn [andb negb].
+      destruct (is_empty va) eqn:Ea; [discriminate|].
+      destruct (is_empty vs) eqn:Es; cbn [negb]; [|discriminate]. cbn [andb negb].
       intros H; inversion H; subst r; cbn.
-      apply is_empty_true in Ep. apply is_empty_false in Ea. auto.
+      apply is_empty_true in Ep, Es. apply is_empty_false in Ea. auto.
     + destruct (is_empty vs) eqn:Es; cbn [orb]; [discriminate|].
       destruct (is_empty vp) eqn:Ep; cbn [orb]; [discriminate|].
       destruct (is_empty va) eqn:Ea; [discriminate|].
@@ -355,11 +357,16 @@ Proof.
     exists g. auto.
 Qed.
 
-(** What the code does not look at: :scheme of non-extended requests. *)
+Lemma WF_no_empty_pseudo isReq lim fs : WF isReq lim fs -> no_empty_pseudo fs.
+Proof.
+  intros (Hw & _) f Hf Hp. rewrite Forall_forall in Hw. destruct (Hw f Hf) as (_ & _ & Hps & _).
+  destruct (Hps Hp) as [_ Hne]. exact Hne.
+Qed.
+
+(** What the code still does not look at: the presence of :scheme on a non-CONNECT request
+    (the in-tree TestRequestHeaderParsing sends none). *)
 Definition scheme_rule (fs : list field) : Prop :=
-  if beq (last_value (bs ":method") fs) (bs "CONNECT") && is_empty (last_value (bs ":protocol") fs)
-  then ~ has (bs ":scheme") fs
-  else last_value (bs ":scheme") fs <> [].
+  beq (last_value (bs ":method") fs) (bs "CONNECT") = false -> last_value (bs ":scheme") fs <> [].
 
 Lemma request_rules_from_x fs :
   request_rules_x fs -> no_empty_pseudo fs -> scheme_rule fs -> request_rules fs.
@@ -367,20 +374,26 @@ Proof.
   unfold request_rules_x, request_rules, scheme_rule. intros Hx Hne Hs.
   pose proof (has_last_value (bs ":method") fs eq_refl Hne) as Hm.
   pose proof (has_last_value (bs ":path") fs eq_refl Hne) as Hp.
+  pose proof (has_last_value (bs ":scheme") fs eq_refl Hne) as Hsc.
   pose proof (has_last_value (bs ":protocol") fs eq_refl Hne) as Hpr.
   destruct (beq (last_value (bs ":method") fs) (bs "CONNECT")) eqn:Ec.
   - assert (Hmne : last_value (bs ":method") fs <> []).
     { apply beq_eq in Ec. rewrite Ec. discriminate. }
     split; [apply Hm; auto|]. split; auto.
-    destruct (is_empty (last_value (bs ":protocol") fs)) eqn:Epr; cbn [andb] in Hs.
-    + destruct Hx as [X1 X2]. apply is_empty_true in Epr. repeat split; auto.
+    destruct (is_empty (last_value (bs ":protocol") fs)) eqn:Epr.
+    + destruct Hx as (X1 & X2 & X3). apply is_empty_true in Epr. split; [|split; [|split]]; auto.
+      * intros Hh. apply Hsc in Hh. contradiction.
       * intros Hh. apply Hp in Hh. contradiction.
       * intros Hh. apply Hpr in Hh. contradiction.
     + exact Hx.
-  - cbn [andb] in Hs. destruct Hx as (X1 & X2 & X3 & X4).
+  - destruct Hx as (X1 & X2 & X3 & X4).
     split; [apply Hm; auto|]. split; auto. split; [|split; auto].
     intros Hh. apply Hpr in Hh. contradiction.
 Qed.
+
+Lemma request_rules_rfc lim fs :
+  WF true lim fs -> request_rules_x fs -> scheme_rule fs -> request_rules fs.
+Proof. intros Hw Hx Hs. eapply request_rules_from_x; eauto. eapply WF_no_empty_pseudo; eauto. Qed.
 
 Definition any_uri (_ : bytes) : bool * bytes * bytes := (true, [], []).
 
@@ -392,16 +405,15 @@ Proof.
   unfold request_rules. intros (_ & _ & H). vm_compute in H. destruct H as (_ & H & _). apply H. reflexivity.
 Qed.
 
-Lemma connect_scheme_refuted :
-  exists fs r, requestFromHeaders 65536 fs false any_uri = inr r /\ ~ request_rules fs.
-Proof.
-  exists [mk ":method" "CONNECT"; mk ":authority" "example.com:443"; mk ":scheme" "https"]. eexists.
-  split; [vm_compute; reflexivity|].
-  unfold request_rules. intros (_ & _ & H).
-  change (beq (last_value (bs ":method") [mk ":method" "CONNECT"; mk ":authority" "example.com:443"; mk ":scheme" "https"]) (bs "CONNECT")) with true in H.
-  change (is_empty (last_value (bs ":protocol") [mk ":method" "CONNECT"; mk ":authority" "example.com:443"; mk ":scheme" "https"])) with true in H.
-  cbv iota in H. destruct H as (H & _). apply H. exists (mk ":scheme" "https"). split; [simpl; auto|reflexivity].
-Qed.
+(** the former witnesses of the repaired CONNECT deviations are rejected *)
+Lemma connect_witnesses_rejected :
+  requestFromHeaders 65536 [mk ":method" "CONNECT"; mk ":authority" "example.com:443"; mk ":scheme" "https"] false any_uri
+    = inl (EMalformed ConnectSchemeRule) /\
+  requestFromHeaders 65536 [mk ":method" "CONNECT"; mk ":authority" "example.com:443"; mk ":path" ""] false any_uri
+    = inl (EMalformed EmptyPseudo) /\
+  requestFromHeaders 65536 [mk ":method" "CONNECT"; mk ":protocol" ""; mk ":authority" "example.com:443"] false any_uri
+    = inl (EMalformed EmptyPseudo).
+Proof. split; [|split]; vm_compute; reflexivity. Qed.
 
 (** * updateResponseFromHeaders *)
 
